@@ -454,7 +454,26 @@ func (sp Spec) ruleAction(p *prng, rg ruleGlyphs) (Lookup, error) {
 
 func (p *prng) value(format int) Value {
 	v := Value{}
-	d := func() int { return (p.n(401) - 200) & 0xFFFF }
+	// hinting Device tables (used with a ppem set): deltas for 8-20 pixels per em; with a design
+	// value of zero next to them the adjustment exists at those sizes only
+	for k := 0; k < 4; k++ {
+		if format&(0x10<<k) != 0 && p.n(5) != 0 {
+			f := 1 + p.n(3)
+			lim := []int{0, 2, 8, 128}[f]
+			d := &Device{Start: 8 + p.n(4), Format: f}
+			for i, n := 0, 4+p.n(10); i < n; i++ {
+				d.Deltas = append(d.Deltas, p.n(2*lim)-lim)
+			}
+			v.Dev[k] = d
+		}
+	}
+	zero := format&0xF0 != 0 && p.n(2) == 0
+	d := func() int {
+		if zero {
+			return 0
+		}
+		return (p.n(401) - 200) & 0xFFFF
+	}
 	if format&1 != 0 {
 		v.XPla = d()
 	}
@@ -470,7 +489,7 @@ func (p *prng) value(format int) Value {
 	return v
 }
 
-var valueFormats = []int{4, 4, 1, 2, 5, 3, 8, 6, 15}
+var valueFormats = []int{4, 4, 1, 2, 5, 3, 8, 6, 15, 0x44, 0x44, 0x40, 0x11, 0x22, 0x33, 0x88}
 
 // rulesGPOS draws a GPOS table.
 func (sp Spec) rulesGPOS(p *prng, rg ruleGlyphs) (*Layout, error) {
